@@ -15,6 +15,7 @@ const (
 	zzEvSilenceToServer
 	zzEvDamageToClient // one byte of message k (server -> client) is replaced
 	zzEvDamageToServer
+	zzEvPauseClient // the user pauses the transfer (stop/continue question) just before the k-th server message
 )
 
 type zzSess struct {
@@ -29,7 +30,11 @@ type zzSess struct {
 	fired    bool
 	dmgPos   int
 	dmgByte  byte
+	paused   *trzszTransfer
+	pauseTicks int
 }
+
+var zzPauseTicks int
 
 type zzSessToClient struct{ s *zzSess } // the server's writer
 type zzSessToServer struct{ s *zzSess } // the wrapper's remote-side writer
@@ -46,6 +51,11 @@ func (s *zzSess) fire() {
 		}
 	case zzEvStopServer:
 		s.V.stopTransferringFiles(false)
+	case zzEvPauseClient:
+		if t := s.f.transfer.Load(); t != nil {
+			t.pauseTransferringFiles()
+			s.paused = t
+		}
 	}
 }
 
@@ -70,7 +80,7 @@ func (w *zzSessToClient) Write(p []byte) (int, error) {
 	c := make([]byte, len(p))
 	copy(c, p)
 	switch s.event {
-	case zzEvStopClient, zzEvStopDeleteClient, zzEvStopServer:
+	case zzEvStopClient, zzEvStopDeleteClient, zzEvStopServer, zzEvPauseClient:
 		if idx == s.at {
 			s.fire()
 		}
@@ -149,7 +159,7 @@ func zzRunSession(upload bool, event, maxAt int, timeout int) (*zzSess, *zzSessR
 		verifFSAddFile(root+"/a", []byte("old"))
 	}
 	verifFSBegin()
-	s := &zzSess{toClient: make(chan []byte, 400), term: &zzCap5{}, event: event}
+	s := &zzSess{toClient: make(chan []byte, 400), term: &zzCap5{}, event: event, pauseTicks: zzPauseTicks}
 	if event != zzEvNone {
 		lo := 0
 		if event == zzEvSilenceToServer || event == zzEvDamageToServer {
@@ -202,9 +212,23 @@ func zzRunSession(upload bool, event, maxAt int, timeout int) (*zzSess, *zzSessR
 	}
 	s.toClient <- []byte("\x1b7\x07::TRZSZ:TRANSFER:" + string([]byte{mode}) + ":1.1.5:0000000000100\r\n")
 	verifQuiesce()
+	resumed := false
+	resumeIfPaused := func() {
+		if event == zzEvPauseClient && s.paused != nil && !resumed {
+			for i := 0; i < s.pauseTicks; i++ {
+				verifAdvanceTime() // a pause at least as long as the timeout
+				verifQuiesce()
+			}
+			s.paused.resumeTransferringFiles() // the user chose "continue"
+			resumed = true
+			verifQuiesce()
+		}
+	}
+	resumeIfPaused()
 	for i := 0; i < verifBound("TICKS") && !(res.serverDone && s.f.transfer.Load() == nil); i++ {
 		verifAdvanceTime()
 		verifQuiesce()
+		resumeIfPaused()
 	}
 	res.clientClear = s.f.transfer.Load() == nil
 	if res.hadOld && !res.overwrite {
@@ -306,5 +330,36 @@ func zzH_C02_session() {
 	if res.hadOld && !res.overwrite {
 		old := verifFSContent(res.root + "/a")
 		verifAssert(string(old) == "old", "a pre-existing file was modified")
+	}
+}
+
+
+// C18: the user pauses just before the k-th server message and continues; a pause during which no time-out elapses
+// must end in a complete, identical transfer; a longer pause either completes correctly or ends with an error —
+// never a hang, never success for a wrong file
+func zzH_C18_session() {
+	upload := verifNondetBool()
+	zzPauseTicks = verifNondetRange(0, 1)
+	timeout := 1
+	if zzPauseTicks == 0 {
+		timeout = 0 // a pause shorter than the timeout: in discrete time, no time-out at all elapses
+	}
+	s, res := zzRunSession(upload, zzEvPauseClient, verifBound("MSGS"), timeout)
+	if !res.serverDone || !res.clientClear {
+		verifAssertNoLiveThreadsExcept("a side hangs after a pause/resume", "wrapOutput")
+	}
+	verifAssert(res.serverDone, "the server side hangs after a pause/resume")
+	verifAssert(res.clientClear, "the client side hangs after a pause/resume")
+	if s.paused == nil || s.pauseTicks == 0 {
+		verifAssert(res.serverErr == nil, "transfer failed although the pause was shorter than the timeout")
+		verifAssert(zzSessFileIntact(res), "file differs after a short pause")
+		verifReach("short-pause-ok")
+		return
+	}
+	if res.serverErr == nil {
+		verifAssert(zzSessFileIntact(res), "success reported for a wrong or truncated file after a long pause")
+		verifReach("long-pause-ok")
+	} else {
+		verifReach("long-pause-error")
 	}
 }
